@@ -328,6 +328,13 @@ def check_walk(run, db):
     return n
 
 
+def check_stack_unwind(run, db):
+    """memory_stack::unwind checks the marker (index, end, top) before it drops blocks or moves the cursor - the rules of C06 on
+    unwind, reported here as R-DBG.unwind (an unwind to a marker above the current top must be reported before state changes)"""
+    from rules import c06, c05
+    return c06.check_stack(c05._Renamed(run, 'R-DBG.unwind'), db)
+
+
 def check_handler(run, db):
     n = 0
     pc = build.CONFIGS[db.config]['FOONATHAN_MEMORY_DEBUG_POINTER_CHECK']
@@ -384,8 +391,9 @@ def run(run):
     run.rule('R-DBG.search', 'ordered-list search: membership test; exempt paths are the strict-order ones', floor=2)
     run.rule('R-DBG.range', 'chunk membership is the half-open interval of its nodes', floor=1)
     run.rule('R-DBG.walk', 'the small list\'s double-free test visits every free node', floor=1)
+    run.rule('R-DBG.unwind', 'memory_stack::unwind checks the marker before changing state (shared with C06)', floor=4)
     run.rule('R-DBG.handler', 'checks reach the registered handler iff the condition is false', floor=6)
-    run.explanation = ('Analysed in the Debug configuration (these functions do not exist in the pinned build). memory_stack::unwind is covered by C06 R-UNWIND.top. '
+    run.explanation = ('Analysed in the Debug configuration (these functions do not exist in the pinned build). the checks of memory_stack::unwind are decided by the rules of C06 (reported here as R-DBG.unwind). '
                        'Not decided: that valid releases never trigger a report (needs the list invariants).')
     run.assumptions += ['the "most recently freed node freed twice" case ends in the unreachable-abort path, which the property accepts (stops the program)']
     for cfg in common.configs(run):
@@ -394,6 +402,8 @@ def run(run):
             run.broke('listed release functions not found [%s]' % cfg)
         if check_search(run, db) < 2:
             run.broke('find_pos / find_pos_interval not found [%s]' % cfg)
+        if check_stack_unwind(run, db) < 2:
+            run.broke('memory_stack::unwind not found [%s]' % cfg)
         if check_handler(run, db) < 3:
             run.broke('debug check helpers not found [%s]' % cfg)
         if check_range(run, db) < 1 or check_walk(run, db) < 1:
